@@ -461,8 +461,8 @@ Lemma start_effect s t o s' : start s t o = Some s' ->
   splock s' = splock s /\ qlock s' = qlock s /\ queue s' = queue s /\ m_count s' = m_count s /\ vcpus s' = vcpus s /\
   g_sig s' = g_sig s /\ g_ret0 s' = g_ret0 s /\ g_rets s' = g_rets s /\ g_init s' = g_init s /\ ooo s' = ooo s.
 Proof.
-  intros H. start_cases H; apply ltb_lt in Hlt; norm; unfold pcof; try rewrite Hpc; cbn [holds_sp];
-    repeat split; auto; intros; norm; reflexivity.
+  intros H. start_cases H; apply ltb_lt in Hlt; repeat split; auto; intros; norm; unfold pcof; try rewrite Hpc;
+    cbn [holds_sp]; reflexivity.
 Qed.
 
 Lemma vstep_effect s v s' : vstep s v = Some s' ->
@@ -493,17 +493,153 @@ Qed.
 
 Lemma sp_inv_step s l s' : sp_inv s -> step s l = Some s' -> sp_inv s'.
 Proof.
-  intros I H. destruct l.
+  intros Iv H. destruct l.
   - simpl in H. destruct (start_effect _ _ _ _ H) as (Ht&Hn&Hi&Hh&Fr&Hs&_).
-    destruct I as [I1 I2]. split.
+    destruct Iv as [I1 I2]. split.
     + intros t' Hl Hh'. rewrite Hn in Hl. rewrite Hs. destruct (Nat.eq_dec t' t) as [->|N]; [congruence|].
       rewrite Fr in Hh' by auto. auto.
     + intros p Hp. rewrite Hs in Hp. destruct (I2 _ Hp) as (t'&->&Hl&Hh'). exists t'. rewrite Hn. repeat split; auto.
       destruct (Nat.eq_dec t' t) as [->|N]; [rewrite Hi in Hh'; discriminate|rewrite Fr; auto].
   - eapply sp_inv_tstep; eauto.
-  - destruct (sched_effect _ _ _ H I0) as (Hn&Hp&Hs&_). eapply sp_inv_frame; eauto.
-  - destruct (sched_effect _ _ _ H I0) as (Hn&Hp&Hs&_). eapply sp_inv_frame; eauto.
-  - destruct (sched_effect _ _ _ H I0) as (Hn&Hp&Hs&_). eapply sp_inv_frame; eauto.
+  - destruct (sched_effect _ _ _ H Logic.I) as (Hn&Hp&Hs&_). eapply sp_inv_frame; eauto.
+  - destruct (sched_effect _ _ _ H Logic.I) as (Hn&Hp&Hs&_). eapply sp_inv_frame; eauto.
+  - destruct (sched_effect _ _ _ H Logic.I) as (Hn&Hp&Hs&_). eapply sp_inv_frame; eauto.
   - simpl in H. destruct (vstep_effect _ _ _ H) as (Hn&Hp&Hs&_). eapply sp_inv_frame; eauto.
-  - destruct (sched_effect _ _ _ H I0) as (Hn&Hp&Hs&_). eapply sp_inv_frame; eauto.
+  - destruct (sched_effect _ _ _ H Logic.I) as (Hn&Hp&Hs&_). eapply sp_inv_frame; eauto.
+Qed.
+
+(* ---------------------------------------------------------------------------------------- *)
+(* sums over the thread table *)
+Fixpoint tsum (F : thread -> Z) (l : list thread) : Z :=
+  match l with [] => 0 | th :: r => F th + tsum F r end.
+Lemma tsum_upd F l i v : (i < length l)%nat -> tsum F (upd_nth l i v) = tsum F l - F (nth i l thread0) + F v.
+Proof. revert i; induction l; destruct i; simpl; intros; try lia. rewrite IHl by lia. lia. Qed.
+Definition ssum (F : thread -> Z) (s : state) : Z := tsum F (threads s).
+Lemma ssum_modth F s x f : (x < nthreads s)%nat -> ssum F (modth s x f) = ssum F s - F (getth s x) + F (f (getth s x)).
+Proof. intros. unfold ssum, modth, setth; simpl. rewrite tsum_upd by auto. reflexivity. Qed.
+Lemma ssum_modth_keep F s x f : (forall th, F (f th) = F th) -> ssum F (modth s x f) = ssum F s.
+Proof.
+  intros H. destruct (lt_dec x (nthreads s)).
+  - rewrite ssum_modth by auto. rewrite H. lia.
+  - unfold ssum, modth, setth; simpl. rewrite upd_nth_oob; auto. unfold nthreads in *; lia.
+Qed.
+Lemma ssum_nonneg F s : (forall th, 0 <= F th) -> 0 <= ssum F s.
+Proof. intros H. unfold ssum. induction (threads s); simpl; [lia|]. specialize (H a). lia. Qed.
+Lemma ssum_set_now F s v : ssum F (set_now s v) = ssum F s. Proof. reflexivity. Qed.
+Lemma ssum_set_count F s v : ssum F (set_count s v) = ssum F s. Proof. reflexivity. Qed.
+Lemma ssum_set_splock F s v : ssum F (set_splock s v) = ssum F s. Proof. reflexivity. Qed.
+Lemma ssum_set_qlock F s v : ssum F (set_qlock s v) = ssum F s. Proof. reflexivity. Qed.
+Lemma ssum_set_queue F s v : ssum F (set_queue s v) = ssum F s. Proof. reflexivity. Qed.
+Lemma ssum_set_vcpus F s v : ssum F (set_vcpus s v) = ssum F s. Proof. reflexivity. Qed.
+Lemma ssum_set_gsig F s v : ssum F (set_gsig s v) = ssum F s. Proof. reflexivity. Qed.
+Lemma ssum_set_gret0 F s v : ssum F (set_gret0 s v) = ssum F s. Proof. reflexivity. Qed.
+Lemma ssum_set_grets F s v : ssum F (set_grets s v) = ssum F s. Proof. reflexivity. Qed.
+Lemma ssum_set_gcrash F s v : ssum F (set_gcrash s v) = ssum F s. Proof. reflexivity. Qed.
+Lemma ssum_set_grefail F s v : ssum F (set_grefail s v) = ssum F s. Proof. reflexivity. Qed.
+Lemma ssum_set_gwakes F s v : ssum F (set_gwakes s v) = ssum F s. Proof. reflexivity. Qed.
+Lemma ssum_setv F s v p : ssum F (setv s v p) = ssum F s. Proof. reflexivity. Qed.
+Global Hint Rewrite ssum_set_now ssum_set_count ssum_set_splock ssum_set_qlock ssum_set_queue ssum_set_vcpus ssum_set_gsig ssum_set_gret0 ssum_set_grets ssum_set_gcrash ssum_set_grefail ssum_set_gwakes ssum_setv : st.
+
+(* ---------------------------------------------------------------------------------------- *)
+(* local well-formedness of the program counters (facts each thread knows about its locals) *)
+Definition caller_args (k : caller) : option wargs := match k with CWaitFail a _ _ => Some a | _ => None end.
+Definition pik_caller (kk : pikont) : option caller :=
+  match kk with KHead k _ | KScan k _ _ => Some k | KIntr => None end.
+Definition pc_caller (p : pc) : option caller :=
+  match p with
+  | TRHead k _ | TRLockX k _ _ | TRRecheck k _ _ | TRUnlockRetry k _ _ | TRCmp k _ _ | TRUnlockBreak k _ _
+  | TRUnlockLoop k _ _ | TRTail k _ | SCQLock k _ | SCTLock k _ _ | SCCmp k _ _ | SCTUnlock k _ _ | SCQUnlock k => Some k
+  | PIQLock kk _ | PIDeq kk _ | PIState kk _ => pik_caller kk
+  | _ => None
+  end.
+Definition pc_args (p : pc) : option wargs :=
+  match p with
+  | WLock1 a | WLoad a | WCas a _ | WQLock a | WTLock a | WEnq a | WQUnlock a | WDefer a | WAsleep a
+  | WLock2 a _ | WFailLoad a _ | WRet a _ _ => Some a
+  | _ => match pc_caller p with Some k => caller_args k | None => None end
+  end.
+Definition args_ok (a : wargs) : Prop := 0 < w_c a < W64.
+Definition pc_wf (p : pc) : Prop :=
+  (forall a, pc_args p = Some a -> args_ok a) /\
+  match p with
+  | WCas a mc => w_c a <= mc
+  | WLock2 _ r => r = 0 \/ r = -1
+  | WFailLoad _ r => r = -1
+  | WRet a r took => (r = 0 /\ took = w_c a) \/ (r = -1 /\ took = 0)
+  | SLock n | SAdd n _ => 0 < n < W64
+  | _ => match pc_caller p with Some (CWaitFail _ r _) => r = -1 | _ => True end
+  end.
+
+Ltac zb := repeat match goal with
+  | H : (_ <? _) = true |- _ => apply Z.ltb_lt in H
+  | H : (_ <? _) = false |- _ => apply Z.ltb_ge in H
+  | H : (_ <=? _) = true |- _ => apply Z.leb_le in H
+  | H : (_ <=? _) = false |- _ => apply Z.leb_gt in H
+  | H : (_ =? _) = true |- _ => apply Z.eqb_eq in H
+  | H : (_ =? _) = false |- _ => apply Z.eqb_neq in H
+  | H : negb _ = false |- _ => apply negb_false_iff in H
+  | H : negb _ = true |- _ => apply negb_true_iff in H
+  | H : _ && _ = true |- _ => apply andb_true_iff in H; destruct H
+  end.
+
+Lemma tstep_pcwf s t s' : tstep s t = Some s' -> pc_wf (pcof s t) -> pc_wf (pcof s' t).
+Proof.
+  intros H. tstep_cases H; apply ltb_lt in Hlt; norm; unfold pcof; try rewrite Hpc; auto;
+    unfold pc_wf; cbn [pc_args pc_caller pik_caller caller_args]; intros [W1 W2]; (split; [first [exact W1 | (intros ? E; discriminate E) | (intros ? E; inv_some E; apply W1; reflexivity)]|]); zb; auto; try lia.
+  all: try (destruct W2 as [W2|W2]; lia).
+Qed.
+
+Lemma start_pcwf s t o s' : start s t o = Some s' -> pc_wf (pcof s' t).
+Proof.
+  intros H. start_cases H; apply ltb_lt in Hlt; norm; unfold pcof; try rewrite Hpc;
+    unfold pc_wf, args_ok; cbn [pc_args pc_caller pik_caller caller_args]; (split; [intros a' E; try discriminate; inv_some E; cbn [w_c]|]); zb; auto; try lia.
+Qed.
+
+Definition pcwf_inv (s : state) : Prop := forall t, (t < nthreads s)%nat -> pc_wf (pcof s t).
+
+Lemma pcwf_inv_step s l s' : pcwf_inv s -> step s l = Some s' -> pcwf_inv s'.
+Proof.
+  intros Iv H t' Hl. destruct l.
+  - simpl in H. destruct (start_effect _ _ _ _ H) as (Ht&Hn&Hi&Hh&Fr&_). rewrite Hn in Hl.
+    destruct (Nat.eq_dec t' t) as [->|N]; [eapply start_pcwf; eauto|rewrite Fr; auto].
+  - simpl in H. rewrite (tstep_nthreads _ _ _ H) in Hl.
+    destruct (Nat.eq_dec t' t) as [->|N]; [eapply tstep_pcwf; eauto|erewrite tstep_pc_frame; eauto].
+  - destruct (sched_effect _ _ _ H Logic.I) as (Hn&Hp&_). rewrite Hn in Hl. rewrite Hp; auto.
+  - destruct (sched_effect _ _ _ H Logic.I) as (Hn&Hp&_). rewrite Hn in Hl. rewrite Hp; auto.
+  - destruct (sched_effect _ _ _ H Logic.I) as (Hn&Hp&_). rewrite Hn in Hl. rewrite Hp; auto.
+  - simpl in H. destruct (vstep_effect _ _ _ H) as (Hn&Hp&_). rewrite Hn in Hl. rewrite Hp; auto.
+  - destruct (sched_effect _ _ _ H Logic.I) as (Hn&Hp&_). rewrite Hn in Hl. rewrite Hp; auto.
+Qed.
+
+(* ---------------------------------------------------------------------------------------- *)
+(* T1: conservation of tokens *)
+(* tokens already subtracted by a wait call that has not returned yet (it will return 0) *)
+Definition infl (th : thread) : Z := match t_pc th with WRet _ 0 took => took | _ => 0 end.
+Definition inflight (s : state) : Z := ssum infl s.
+(* what the counter would be without the 2^64 wrap *)
+Definition tokens (s : state) : Z := g_init s + g_sig s - g_ret0 s - inflight s.
+
+Ltac sums F :=
+  repeat first [ rewrite ssum_modth_keep by (intros; reflexivity)
+               | rewrite ssum_modth by (autorewrite with st; auto)
+               | rewrite (getth_modth_frame F) by (intros; reflexivity)
+               | progress (autorewrite with st) ].
+
+Lemma infl_pc th p : infl (set_pc th p) = match p with WRet _ 0 took => took | _ => 0 end.
+Proof. reflexivity. Qed.
+
+Lemma tstep_ledger s t s' : tstep s t = Some s' -> pc_wf (pcof s t) ->
+  (m_count s' = m_count s /\ tokens s' = tokens s) \/
+  (exists n ep, pcof s t = SAdd n ep /\ m_count s' = wrap (m_count s + n) /\ tokens s' = tokens s + n) \/
+  (exists a, pcof s t = WCas a (m_count s) /\ m_count s' = m_count s - w_c a /\ tokens s' = tokens s - w_c a).
+Proof.
+  intros H. unfold pcof, tokens, inflight.
+  tstep_cases H; apply ltb_lt in Hlt; intros [W1 W2]; unf; brk; sums infl; unfold infl at 1 2; thsimp; try rewrite Hpc;
+    try (left; split; [reflexivity|lia]).
+  all: zb; subst.
+  all: try (left; split; [reflexivity|destruct ret; try lia; destruct W2; lia]).
+  - right; right. exists a. repeat split; auto. lia.
+  - left; split; auto. destruct W2 as [[? ?]|[? ?]]; subst; lia.
+  - left; split; auto. destruct W2 as [[? ?]|[? ?]]; subst; lia.
+  - right; left. exists n, ep. repeat split; auto. lia.
 Qed.
